@@ -272,5 +272,38 @@ def c08(rng, tier):
                 yield case, f
 
 
+def c08_scaled(rng, tier):
+    """scale covariance: full column rank / positive definiteness do not depend on the scale of A, so the factors of s*A must be the
+    scaled factors of A (qr: Q, s R; qr_full likewise; cholesky: sqrt(s) L; lu: P, L, s U) -- relative comparison, which an absolute
+    rank or pivot threshold inside a kernel violates for small matrices.  The unscaled factorization is the one decided by c08."""
+    a = A(); U = a.UTPM
+    def rel(x, y): return x.shape == y.shape and float(numpy.abs(x - y).max()) <= 1e-7 * max(float(numpy.abs(y).max()), 1e-300)
+    for (D, P) in ([(3, 2)] if tier == 'quick' else [(2, 1), (4, 2)]):
+        for s_ in (1e-9, 1e-11, 1e6):
+            for (m, n) in ((2, 2), (3, 3), (4, 2), (2, 4)):
+                Ad = poly(rng, D, P, (m, n), base=lambda p: rnd_arr(rng, (m, n)) + (numpy.eye(m, n) * (2 + p)))
+                for fn in ('qr',) + (('qr_full',) if m >= n else ()):
+                    case = {'fn': fn + '[scaled]', 'shape': [m, n], 'scale': s_, 'D': D, 'P': P}
+                    try:
+                        Q, R = getattr(a, fn)(U(Ad.copy())); Qs, Rs = getattr(a, fn)(U(s_ * Ad))
+                        yield case, (None if rel(Qs.data, Q.data) and rel(Rs.data, s_ * R.data) else '%s(s A) is not (Q, s R) of %s(A) for s = %g' % (fn, fn, s_))
+                    except Exception as e: yield case, 'raises %s: %s' % (type(e).__name__, str(e)[:100])
+            for n in (2, 3):
+                Ad = poly(rng, D, P, (n, n)); Ad = Ad + PA.transpose(Ad)
+                for p in range(P): B = rnd_arr(rng, (n, n)); Ad[0, p] = B.dot(B.T) + (1.5 + p) * numpy.eye(n)
+                case = {'fn': 'cholesky[scaled]', 'n': n, 'scale': s_, 'D': D, 'P': P}
+                try:
+                    L = a.cholesky(U(Ad.copy())); Ls = a.cholesky(U(s_ * Ad))
+                    yield case, (None if rel(Ls.data, numpy.sqrt(s_) * L.data) else 'cholesky(s A) is not sqrt(s) cholesky(A) for s = %g' % s_)
+                except Exception as e: yield case, 'raises %s: %s' % (type(e).__name__, str(e)[:100])
+                Ad = poly(rng, D, P, (n, n), base=lambda p: wellcond(rng, n, p, pivot=bool(p % 2)))
+                case = {'fn': 'lu[scaled]', 'n': n, 'scale': s_, 'D': D, 'P': P}
+                try:
+                    r1 = a.lu(U(Ad.copy())); r2 = a.lu(U(s_ * Ad))
+                    d1 = [t.data if isinstance(t, U) else numpy.asarray(t) for t in r1]; d2 = [t.data if isinstance(t, U) else numpy.asarray(t) for t in r2]
+                    yield case, (None if len(d1) == len(d2) == 3 and rel(d2[0], d1[0]) and rel(d2[1], d1[1]) and rel(d2[2], s_ * d1[2]) else 'lu(s A) is not (P, L, s U) of lu(A) for s = %g' % s_)
+                except Exception as e: yield case, 'raises %s: %s' % (type(e).__name__, str(e)[:100])
+
+
 c07_all = with_patterns(c07)
 c08_all = with_patterns(c08)
